@@ -45,6 +45,13 @@ type Case struct {
 	TokenTimeoutMs int `json:"token_timeout_ms,omitempty"`
 	IdleBefore     int `json:"idle_before,omitempty"`
 	IdleMs         int `json:"idle_ms,omitempty"`
+	// back-pressure plan: the session queue holds only Queue messages (0 = 100),
+	// so the concurrent publisher keeps waiting for room inside the backend, and
+	// with Unsub the subscriber puts an UNSUBSCRIBE for an unrelated filter in
+	// front of every batch of acknowledgements: other requests of a client that
+	// acknowledges everything must not get in the way of the acknowledgements.
+	Queue int  `json:"queue,omitempty"`
+	Unsub bool `json:"unsub,omitempty"`
 }
 
 type verdict struct{ sig, msg string }
@@ -73,6 +80,7 @@ type sub struct {
 	seenQ   map[string]bool   // QoS>0 tags seen at least once
 	recSet  map[packet.ID]string // receiver state: QoS 2 ids passed to the application, PUBCOMP not yet sent
 	scanned int
+	unsubs  int
 	maxSeen int
 	arrQ    int // QoS>0 deliveries (including retransmissions) seen, for Reconnect
 	totalQ  int
@@ -237,6 +245,10 @@ func (s *sub) maybeRelease() {
 			rel[i], rel[j] = rel[j], rel[i]
 		}
 	}
+	if s.c.Unsub && len(rel) > 0 {
+		s.unsubs++
+		_ = s.p.Send(&packet.Unsubscribe{ID: packet.ID(30000 + s.unsubs%20000), Topics: []string{"c16x/none"}})
+	}
 	for _, p := range rel {
 		s.releaseOne(p)
 	}
@@ -265,6 +277,9 @@ func runCase(c *Case) (*verdict, *sub) {
 	b := bk.New(func(m *broker.MemoryBackend, e *broker.Engine) {
 		m.ClientInflightMessages = c.Window
 		m.SessionQueueSize = 100
+		if c.Queue > 0 {
+			m.SessionQueueSize = c.Queue
+		}
 		if c.TokenTimeoutMs > 0 {
 			m.ClientTokenTimeout = time.Duration(c.TokenTimeoutMs) * time.Millisecond * ev.Slow()
 		}
@@ -386,7 +401,7 @@ func (s *sub) count0() int {
 
 func genCase(rt *rapid.T) *Case {
 	c := &Case{Window: rapid.SampledFrom([]int{1, 1, 2, 2, 3, 4, 5, 7, 10}).Draw(rt, "window")}
-	kind := rapid.SampledFrom([]string{"immediate", "batch", "batch-full", "batch-full", "delay", "reconnect", "reconnect", "qos0-burst", "immediate", "batch", "batch-full", "delay", "reconnect", "qos0-burst", "idle"}).Draw(rt, "plan")
+	kind := rapid.SampledFrom([]string{"immediate", "batch", "batch-full", "batch-full", "delay", "reconnect", "reconnect", "qos0-burst", "immediate", "batch", "batch-full", "delay", "reconnect", "qos0-burst", "idle", "backpressure", "backpressure"}).Draw(rt, "plan")
 	maxN := 20 * c.Window
 	mix := rapid.SampledFrom([][]int{{1}, {2}, {1, 2}, {0, 1, 2}, {0, 0, 1, 2, 2}}).Draw(rt, "mix")
 	n := rapid.IntRange(1, maxN).Draw(rt, "n")
@@ -410,6 +425,15 @@ func genCase(rt *rapid.T) *Case {
 		for i := 0; i < k; i++ {
 			at += rapid.IntRange(1, 2*c.Window+1).Draw(rt, "after")
 			c.Reconnect = append(c.Reconnect, at)
+		}
+	case "backpressure":
+		// window stays full until released, tiny queue: the publisher waits for room all the time
+		c.Batch = c.Window
+		c.Queue = rapid.IntRange(1, 4).Draw(rt, "queue")
+		c.Unsub = rapid.IntRange(0, 3).Draw(rt, "unsub") > 0
+		mix = [][]int{{1}, {2}, {1, 2}}[rapid.IntRange(0, 2).Draw(rt, "m")]
+		if n < c.Window+c.Queue+2 {
+			n = c.Window + c.Queue + 2
 		}
 	case "idle":
 		// a connection that was idle for longer than the token timeout and then fills its window
@@ -445,6 +469,10 @@ func genCase(rt *rapid.T) *Case {
 
 func classify(c *Case) string {
 	switch {
+	case c.Queue > 0 && c.Unsub:
+		return "backpressure+unsubscribe"
+	case c.Queue > 0:
+		return "backpressure"
 	case c.IdleMs > 0:
 		return "idle-then-full-window"
 	case len(c.Reconnect) > 0:
@@ -461,7 +489,7 @@ func classify(c *Case) string {
 
 func TestC16(t *testing.T) {
 	run := ev.Start("C16", "exploration")
-	run.Rule("acknowledgement plans: window w in {1,2,3,4,5,7,10}, n <= 20*w numbered messages of mixed QoS published by a second peer (concurrently, or up front for reconnect plans), subscriber acknowledges per plan {immediately, in batches of b <= w, batch = full window, sliding delay d < w, reversed within a batch, PUBCOMP withheld until the next release, drop + unclean reconnect after j deliveries with unacknowledged ones pending (1-3 times), connection idle for longer than a shortened token timeout (400 ms) before the window fills again, QoS 0 burst followed by a full unacknowledged window}; only valid acknowledgements (each received id once). Oracle at the subscriber at EVERY arrival, retransmissions included: received-and-not-yet-acknowledged QoS 1/2 deliveries <= w (a lower bound of the broker's own count); progress: with everything eventually acknowledged all n arrive, the connection stays alive, a full window of w is reached again after each resume (batch = window plans stall otherwise). non-trivial = n >= 3*w or a reconnect with unacknowledged deliveries; distinct by plan")
+	run.Rule("acknowledgement plans: window w in {1,2,3,4,5,7,10}, n <= 20*w numbered messages of mixed QoS published by a second peer (concurrently, or up front for reconnect plans), subscriber acknowledges per plan {immediately, in batches of b <= w, batch = full window, sliding delay d < w, reversed within a batch, PUBCOMP withheld until the next release, drop + unclean reconnect after j deliveries with unacknowledged ones pending (1-3 times), connection idle for longer than a shortened token timeout (400 ms) before the window fills again, QoS 0 burst followed by a full unacknowledged window, back-pressure (session queue of 1-4, publisher waiting for room inside the backend) with an UNSUBSCRIBE for an unrelated filter in front of every batch of acknowledgements}; only valid acknowledgements (each received id once). Oracle at the subscriber at EVERY arrival, retransmissions included: received-and-not-yet-acknowledged QoS 1/2 deliveries <= w (a lower bound of the broker's own count); progress: with everything eventually acknowledged all n arrive, the connection stays alive, a full window of w is reached again after each resume (batch = window plans stall otherwise). non-trivial = n >= 3*w or a reconnect with unacknowledged deliveries; distinct by plan")
 	run.Assume("idle plans: the subscriber acknowledges within microseconds, far below the 400 ms token timeout configured there", "a delivery stall is judged by a 10 s ceiling without any arrival (typical latency < 1 ms); the broker's own token timeout is set to 30 s so that it cannot mask a stall")
 	defer run.Finish(t)
 
